@@ -165,3 +165,48 @@ def register(reg):
                 "UnicodeDecodeError": "True"},
         raises_ensures={"RequestEntityTooLarge": ["stream.nread == old(stream.nread)"]},
     )
+    _register_parse_multipart(reg)
+
+
+def _register_parse_multipart(reg):
+    """FormDataParser._parse_multipart: the multipart parser that does the work is configured with exactly this form
+    parser's limits -- whatever Content-Length the request declares (the declared length is client-controlled and, on a
+    terminated stream, says nothing about how much will be read) -- and an empty boundary is refused before anything is read.
+    MultiPartParser.__init__ is executed from its own source (no stub)."""
+    MPM = reg.model("MultiPartParserM", cls="werkzeug/formparser.py:MultiPartParser",
+                    fields={"max_form_memory_size": "Optional[int]", "max_form_parts": "Optional[int]", "buffer_size": "int",
+                            "stream_factory": "opaque:stream_factory", "cls": "opaque:multidict_class",
+                            # ghost: how often parse() ran and what it was given
+                            "g_parsed": "int", "g_boundary": "bytes", "g_clen": "Optional[int]"})
+    St = reg.models["BodyStream"]
+    reg.contract("werkzeug/formparser.py:MultiPartParser.parse", prop="C10", trusted=True, self_model=MPM,
+                 params={"stream": St, "boundary": "bytes", "content_length": "Optional[int]"},
+                 returns="Tuple[opaque:multidict, opaque:multidict]",
+                 modifies=["self.g_parsed", "self.g_boundary", "self.g_clen", "stream.nread", "stream.last"],
+                 ensures=["self.g_parsed == old(self.g_parsed) + 1", "self.g_boundary == boundary", "self.g_clen == content_length"],
+                 note="call-site summary of the parse loop (its limits: static obligations above + MultipartDecoder contracts)")
+    FPM = reg.model("FormDataParserMP", cls="werkzeug/formparser.py:FormDataParser",
+                    fields={"max_form_memory_size": "Optional[int]", "max_form_parts": "Optional[int]",
+                            "stream_factory": "opaque:stream_factory", "cls": "opaque:multidict_class",
+                            "g_parser": ("opt", ("obj", MPM))})
+    reg.contract(
+        "werkzeug/formparser.py:FormDataParser._parse_multipart", prop="C10", self_model=FPM,
+        params={"stream": St, "mimetype": "str", "content_length": "Optional[int]", "options": "Dict[str, str]"},
+        inline_callees=["werkzeug/formparser.py:MultiPartParser.__init__"],
+        assumes=["self.g_parser is None"],
+        ghost_after={"parser = MultiPartParser(...": ["parser.g_parsed = 0", "parser.g_boundary = b''", "parser.g_clen = None"],
+                     "form, files = parser.parse(stream, boundary, content_length)": ["self.g_parser = parser"]},
+        ensures=[
+            "result[0] is stream",
+            # the parser that ran carries this form parser's limits, independent of the declared length
+            "self.g_parser is not None and self.g_parser.g_parsed == 1",
+            "self.g_parser.max_form_memory_size == self.max_form_memory_size",
+            "self.g_parser.max_form_parts == self.max_form_parts",
+            "self.g_parser.g_clen == content_length",
+            "self.g_parser.g_boundary == options.get('boundary').encode('ascii') and len(self.g_parser.g_boundary) > 0",
+        ],
+        # (UnicodeEncodeError is a ValueError: a boundary parameter that is not ASCII)
+        raises={"ValueError": "options.get('boundary') is None or len(options.get('boundary')) == 0 or "
+                              "not re_in(options.get('boundary'), '[\\x00-\\x7f]*')"},
+        raises_ensures={"ValueError": ["stream.nread == old(stream.nread)"]},
+    )
